@@ -280,6 +280,37 @@ fn explore(out : &mut Out, rng : &mut Rng, p : &Prepared, op : &Op, n_random : u
             out.case(case, "(ok finished)".to_string(), true);
             out.count("traces-validated");
         }
+        // R-fine: the order in which the threads operated on the cache (back-up rename, is_file check, restore rename),
+        // replayed through Model/Fine.v, must be a run of that model with this very outcome (commands as a multiset:
+        // the model performs thread-local steps eagerly)
+        if let Op::Build(goal) = op
+        {
+            if !inv.deadlock && !matches!(inv.verdict, Verdict::Panic(_) | Verdict::Fatal(_)) && inv.panicked_tasks.is_empty()
+            {
+                let mut events : Vec<String> = vec![];
+                for c in inv.calls.iter()
+                {
+                    let t = match c.task { Some(t) if t >= 1 => t - 1, _ => continue };
+                    if c.in_command { continue; }
+                    let kind = if c.op == "rename" && c.path2.starts_with(&cache_prefix()) { 0 }
+                               else if c.op == "is_file" && c.path.starts_with(&cache_prefix()) { 1 }
+                               else if c.op == "rename" && c.path.starts_with(&cache_prefix()) { 2 }
+                               else { continue };
+                    events.push(format!("(#{} #{})", t, kind));
+                }
+                let dd = d.sys.clone();
+                let disk_after = { dd.tick(); dd.disk() };
+                let mut sorted_inv_cmds : Vec<String> = inv.commands.iter().map(|(_, l)| l.clone()).collect();
+                sorted_inv_cmds.sort_by(|a, b| a.as_bytes().cmp(b.as_bytes()));
+                let mut obs = vec!["obs".to_string(), inv.verdict.show(), sexp::list(sorted_inv_cmds.iter().map(|l| sexp::hex(l.as_bytes())).collect()),
+                                   sexp::list(inv.banners.iter().map(|(b, p)| sexp::paren(&[b.clone(), sexp::hex(p.as_bytes())])).collect())];
+                obs.extend(world::show_disk(&disk_after));
+                let case = sexp::paren(&["fine".to_string(), sexp::boolean(false), sexp::num64(1_000_000), sexp::list(p.prep.iter().map(|o| o.show()).collect()),
+                                         sexp::option(goal.clone().map(|g| sexp::hex(g.as_bytes()))), sexp::list(events.clone())]);
+                out.case(case, sexp::paren(&["fine".to_string(), "#0".to_string(), sexp::boolean(true), sexp::paren(&obs)]), true);
+                out.count(&format!("fine-runs:cache-ops:{}", match events.len() { 0 => "0", 1..=3 => "1-3", 4..=9 => "4-9", _ => "10+" }));
+            }
+        }
         // distinctness of schedules: by the sequence of (task, event) pairs
         let mut h : u64 = 0xcbf29ce484222325;
         for e in inv.trace.iter() { for b in format!("{}:{};", e.task, e.what).bytes() { h ^= b as u64; h = h.wrapping_mul(0x100000001b3); } }
